@@ -15,8 +15,8 @@ What is proved (all unbounded; the schema and registry are regenerated from msgs
                       (default build / with feature `developer`)
  * `C19_schema_wf`, `C19_registry`, `C19_registry_dispatch`   facts of the generated table (`decide +kernel`)
  * `C19_psbt`         StreamedPSBT decode on the parsed PSBT: tx unchanged, per input prevout and flag
-The full statement is FALSE for the code as it is: `C19_full_false` (SignLocalHtlcTx2 shares id 20
-with SignRemoteHtlcTx; known finding).  Values outside `wf` are outside the theorem: the real encoder
+The full statement (`C19_full`) holds for the generated registry since fix 8f90c81 of /repo gave
+SignLocalHtlcTx2 its own id (it shared id 20 with SignRemoteHtlcTx and could never be decoded).  Values outside `wf` are outside the theorem: the real encoder
 panics (Octets > 65535, NUL in WireString), truncates (Array length ≥ 65536: `C19_array_truncates`) or the
 decoder refuses (message > MAX_MESSAGE_SIZE: `C19_too_large_rejected`).
 Opaque leaves (Transaction, PSBT, TxoProof, TLV options) enter through the hypothesis `L.RT`.
@@ -142,9 +142,11 @@ theorem regOk_get (reg : List Entry) (h : regOk reg = true) (i : Nat) (e : Entry
 theorem C19_schema_wf : regOk registryAll = true ∧ regOk registry = true := by
   constructor <;> decide +kernel
 
-/-- generated table: exactly one id is shadowed (20: SignLocalHtlcTx2 behind SignRemoteHtlcTx), in
-    both build configurations; all other ids are pairwise distinct (next theorem). -/
-theorem C19_registry : shadowedIds registryAll = [20] ∧ shadowedIds registry = [20] := by
+/-- generated table: no message id is shadowed, in both build configurations: every variant's id
+    dispatches to that variant (hence the ids are pairwise distinct, next theorems).  Before fix
+    8f90c81 of /repo this table had exactly one shadowed id (20: SignLocalHtlcTx2 behind
+    SignRemoteHtlcTx) and the full statement was refuted by that witness. -/
+theorem C19_registry : shadowedIdx registryAll = [] ∧ shadowedIdx registry = [] := by
   constructor <;> decide +kernel
 
 /-- every variant that is not shadowed dispatches to its own struct, and `dispatch` never returns a
@@ -187,7 +189,7 @@ theorem C19_main_equal (hL : L.RT) (hn : L.norm = id) (i : Nat) (e : Entry) (v :
   have := C19_main_registry L hL i e v hi hns hw hlen
   rwa [hn, Val.norm_id] at this
 
-/-! ### the full statement is false for the code as it is; outside `wf` -/
+/-! ### the full statement; outside `wf` -/
 
 /-- leaf codec in which a leaf is its own serialisation (what the driver uses) -/
 def Lid : LeafCodec Bytes := { ser := id, de := fun _ b => some b, norm := id, ok := fun _ _ => true }
@@ -200,32 +202,31 @@ def entryAt (i : Nat) : Entry := registry.getD i { name := "", id := 0, ty := .u
 /-- index the id dispatches to -/
 def idxOfId (id : Nat) : Nat := (dispatch registry id).getD 0
 
-/-- index of the first shadowed variant of the default registry (SignLocalHtlcTx2) -/
-def shadowIdx : Nat := (shadowedIdx registry).headD 0
+/-- **C19 at full strength** for the generated registry of the current source: EVERY message type of
+    the registry and every well-formed value within the size limit decodes from its own encoding to
+    the same variant with the same content (no side condition on the variant any more). -/
+theorem C19_full (hL : L.RT) (i : Nat) (e : Entry) (v : Val α)
+    (hi : registry[i]? = some e)
+    (hw : wf L e.ty v = true) (hlen : (asVec L e v).length ≤ maxMessageSize) :
+    fromVec L registry maxMessageSize (asVec L e v) = .ok (.msg i (v.norm L.norm)) :=
+  C19_main_registry L hL i e v hi (by rw [C19_registry.2]; simp) hw hlen
 
-/-- a SignLocalHtlcTx2: tx, input, per_commitment_number, offered, cltv_expiry, htlc_amount_msat, payment_hash -/
-def shadowWitness : Val Bytes :=
+/-- the same with feature `developer` -/
+theorem C19_full_all (hL : L.RT) (i : Nat) (e : Entry) (v : Val α)
+    (hi : registryAll[i]? = some e)
+    (hw : wf L e.ty v = true) (hlen : (asVec L e v).length ≤ maxMessageSize) :
+    fromVec L registryAll maxMessageSize (asVec L e v) = .ok (.msg i (v.norm L.norm)) :=
+  C19_main_registryAll L hL i e v hi (by rw [C19_registry.1]; simp) hw hlen
+
+/-- a SignLocalHtlcTx2 (the formerly shadowed message): tx, input, per_commitment_number, offered,
+    cltv_expiry, htlc_amount_msat, payment_hash — now it comes back as itself -/
+def formerlyShadowed : Val Bytes :=
   .pair (.leaf [1, 2]) (.pair (.nat 0) (.pair (.nat 7) (.pair (.bool true) (.pair (.nat 500) (.pair (.nat 1000)
     (.bytes (List.replicate 32 0xab)))))))
 
-/-- FULL STATEMENT REFUTED (known finding): a well-formed message of the registry that does not come
-    back: SignLocalHtlcTx2 is parsed as a SignRemoteHtlcTx and rejected. -/
-theorem C19_full_false :
-    ¬ (∀ (i : Nat) (e : Entry) (v : Val Bytes), registry[i]? = some e → wf Lid e.ty v = true →
-        (asVec Lid e v).length ≤ maxMessageSize →
-        fromVec Lid registry maxMessageSize (asVec Lid e v) = .ok (.msg i v)) := by
-  intro h
-  have hget : registry[shadowIdx]? = some (entryAt shadowIdx) := by
-    have hlt : shadowIdx < registry.length := by decide +kernel
-    simp [entryAt, List.getD, List.getElem?_eq_getElem hlt]
-  have hx : wf Lid (entryAt shadowIdx).ty shadowWitness = true ∧
-      (asVec Lid (entryAt shadowIdx) shadowWitness).length ≤ maxMessageSize ∧
-      isMsg (fromVec Lid registry maxMessageSize (asVec Lid (entryAt shadowIdx) shadowWitness))
-        shadowIdx shadowWitness = false := by
-    decide +kernel
-  have := (isMsg_iff _ _ _).mpr (h shadowIdx _ shadowWitness hget hx.1 hx.2.1)
-  rw [hx.2.2] at this
-  cases this
+example : (entryAt (idxOfId 1020)).name = "SignLocalHtlcTx2" ∧
+    isMsg (fromVec Lid registry maxMessageSize (asVec Lid (entryAt (idxOfId 1020)) formerlyShadowed))
+      (idxOfId 1020) formerlyShadowed = true := by decide +kernel
 
 /-- outside `wf`: an `Array` of 65536 elements is encoded with count 0 (`len as u16`), what follows is
     read as trailing bytes (here: HsmdInit2 with 65536 empty allowlist strings would be rejected) -/
